@@ -4,7 +4,7 @@ import copy
 S = set
 
 BASE = dict(
-    Accts=S(['a1', 'a2', 'a3']), FeeUnit=1000, MaxHeight=3,
+    Accts=S(['a1', 'a2', 'a3']), FeeUnit=1000, MaxHeight=3, Deviations=S(),
     Topics=S(), Descs=S(['x']), Mons=S(['m']), RecKeys=S(['k1']), RecVals=S(['v1', 'v2']), FeePayers=S(['none']),
     Dids=S(), DocNames=S(), Keys=S(), VmNames=S(), Seqs=S([0, 1, 2]),
     DenomIds=S(), TokenIds=S(), DNames=S(),
@@ -122,7 +122,11 @@ def preset(pid, tier):
                   DNames=S(['x', 'y']), SignerSets='all', ExecOn=True, Kinds=PN_KINDS | S(['authz.Grant']), MaxDeliver=40, MaxHeight=6, NextKinds=ALL_NEXT, FailKeep=30)
         tourc = pn(Accts=S(['a1', 'a2', 'a3']) if pid == 'C06' else S(['a1', 'a2']), SignerSets='all' if pid == 'C06' else 'exact', DenomIds=S(['n1', 'n2']) if pid == 'C12' else S(['n1']),
                    TokenIds=S(['i1']), ViewDenoms=S(['n1', 'n2']), ViewTokens=S(['i1']), MaxDeliver=3 if q else 4, MaxHeight=2)
-        return dict(mc=mcc, props=props, invs=invs, tour=tourc, sims=[sim(simc, 150 if q else 3000, 60)], mc_timeout=2400)
+        # a generator that believes NUL-bearing identifiers are fine: long chains of messages over aliasing pairs (nz,iy)/(n1,iz).
+        # The judge (Trace.tla) keeps the intended behaviour: on a correct tree every such message is a predicted stateless rejection.
+        hostile = pn(Accts=S(['a1', 'a2']), DenomIds=S(['n1', 'nz']), TokenIds=S(['iz', 'iy']), ViewDenoms=S(['n1', 'nz']), ViewTokens=S(['iz', 'iy']),
+                     Kinds=S(['pnft.CreateDenom', 'pnft.Mint', 'pnft.Transfer', 'pnft.Burn']), MaxDeliver=20, MaxHeight=4, FailKeep=20, Deviations=S(['nulids']))
+        return dict(mc=mcc, props=props, invs=invs, tour=tourc, sims=[sim(simc, 150 if q else 3000, 60), sim(hostile, 40 if q else 600, 30)], mc_timeout=2400)
     if pid == 'C07':
         mcc = burn(MaxDeliver=3 if q else 4, MaxHeight=4 if q else 5)
         simc = burn(Accts=S(['a1', 'a2', 'a3']), Amts=S([0, 1, 7, 1000]), Kinds=S(['bank.Send', 'bank.SendAcct', 'bank.MultiSend', 'vesting.Create']),
